@@ -453,3 +453,9 @@ pub fn fam7(l: L) -> Vec<char> {
     let s = sym(l);
     vec![s.v, s.c, '₂', '１', '٣', ' ']
 }
+
+/// F8: Latin-1 letters and numerics that sit among the Latin-1 punctuation (ª µ º ² ½) next to real punctuation (¡ «)
+pub fn fam8(l: L) -> Vec<char> {
+    let s = sym(l);
+    vec![s.v, 'ª', 'µ', '²', '½', '¡', ' ']
+}
